@@ -112,8 +112,19 @@ def apply_edit(tree, edit):
         n.set_right(ConstantExpression(val))
 
 
+def unhex(x):
+    """integers too long for CPython's decimal text conversion travel through cases as hex strings"""
+    if isinstance(x, str) and (x.startswith("0x") or x.startswith("-0x")):
+        return int(x, 16)
+    if isinstance(x, (list, tuple)):
+        return tuple(unhex(y) for y in x)
+    if isinstance(x, dict):
+        return {k: unhex(v) for k, v in x.items()}
+    return x
+
+
 def observe(case):
-    term, ctx = case["term"], case["ctx"]
+    term, ctx = unhex(case["term"]), unhex(case["ctx"])
     tree = build.build(term)
     if case.get("edit"):
         try:
@@ -159,7 +170,7 @@ def observe(case):
 def make_event(case):
     names = sorted({n for n in "xyz"})
     term = edited_term(case["term"], case["edit"]) if case.get("edit") else case["term"]
-    return {"term": enc_term(term), "ctx": enc_ctx(case["ctx"] or {}, names), "obs": observe(case)}
+    return {"term": enc_term(unhex(term)), "ctx": enc_ctx(unhex(case["ctx"]) or {}, names), "obs": observe(case)}
 
 
 def C(v): return ("c", v)
@@ -247,6 +258,23 @@ def domain(ctx):
             cases.append({"term": ("abs", ("sub", V("x"), V("x"))), "ctx": cx})
             cases.append({"term": ("pow", ("abs", ("neg", V("x"))), C(-1)), "ctx": cx})
             cases.append({"term": ("abs", ("pow", C(10.0), C(400))), "ctx": {}})
+    # integers beyond the range of a double and beyond CPython's 4300-digit text limit: as literals, as bindings of variables that
+    # are used, and as bindings of variables the expression never mentions
+    for hv_ in (10 ** 400, -(7 ** 500), 10 ** 5000 + 1):
+        hv = hex(hv_)
+        nhv = hex(-hv_)
+        cases.append({"term": ("add", V("x"), C(1)), "ctx": {"x": hv}})
+        cases.append({"term": ("add", V("y"), C(1)), "ctx": {"x": hv, "y": 3}})
+        cases.append({"term": ("mul", V("y"), ("sub", V("x"), V("x"))), "ctx": {"x": hv, "y": 2}})
+        if abs(hv_) > 10 ** 4000:
+            continue          # (products of 1250-limb numbers are too slow for the interpreted big-integer arithmetic of the specification)
+        cases.append({"term": ("sub", ("mul", V("x"), C(2)), V("x")), "ctx": {"x": hv}})
+        cases.append({"term": ("eq", V("x"), ("add", V("x"), C(0))), "ctx": {"x": hv}})
+        cases.append({"term": ("eq", V("x"), ("add", V("x"), C(1))), "ctx": {"x": hv}})
+        cases.append({"term": ("add", C(hv), C(nhv)), "ctx": {}})
+        cases.append({"term": ("abs", ("neg", V("x"))), "ctx": {"x": hv}})
+        cases.append({"term": ("pow", V("x"), C(2)), "ctx": {"x": hv}})
+        cases.append({"term": ("div", V("y"), C(4)), "ctx": {"x": hv, "y": 2}})
     # factorials feeding arithmetic beyond 64 bits
     for n in (15, 18, 20):
         cases.append({"term": ("mul", ("fact", C(n)), V("x")), "ctx": {"x": 20}})
@@ -289,11 +317,13 @@ def domain(ctx):
     rule = ("integer trees over %d operands incl. 2^31..10^20 as literals and bindings through + - * (all pairs, sampled triples in both groupings); powers base x exponent over %s; "
             "factorials of %s; neg/abs/sgn; division and decimals over %d small operands incl. zero divisors and NaN propagation (also behind a zero factor); "
             "13 shapes x 9 contexts with absent / None / zero bindings; equations equal / unequal / nested / differing by one unit at magnitudes up to 10^20; "
-            "evaluate - edit in place - evaluate again sequences" % (len(ints), EXPS, FACTS, len(smalls)))
+            "integers of 401 / 423 / 5001 digits as literals and as bindings of used and of unused variables; evaluate - edit in place - evaluate again sequences" % (len(ints), EXPS, FACTS, len(smalls)))
     return cases, rule
 
 
 def sig(case, cl):
+    case = {"term": unhex(case["term"]), "ctx": unhex(case["ctx"])}
+
     def shape(t):
         k = t[0]
         if k == "c":
